@@ -37,6 +37,8 @@ theorem c17_on_source (c : Cfg) (pre : Nat → Option File) (n p : Nat) (hp : is
   c17_no_regular_file taskSem generated_wf_c01_for_c17 generated_streams_exempt c pre n p hp
 
 
+theorem generated_all_ops_known_c17 : taskSemKnown = true := by decide
+
 -- BEGIN PINS (written by bin/mkpins; do not edit by hand)
 /-- the Go functions this property's model and obligations were written against have exactly the
 pinned skeletons (SHA-256 prefix of the atom list) -/
@@ -59,6 +61,7 @@ theorem pinned_skeletons_c17 :
 -- END PINS
 
 end SciVerif.Tie
+#print axioms SciVerif.Tie.generated_all_ops_known_c17
 #print axioms SciVerif.Tie.pinned_skeletons_c17
 #print axioms SciVerif.Tie.generated_wf_c01_for_c17
 #print axioms SciVerif.Tie.generated_streams_exempt
